@@ -36,7 +36,7 @@ COMPONENTS = {
              "cutplace.fields.AbstractFieldFormat.validated and guards", "cutplace.checks.IsUniqueCheck", "cutplace.rowio"],
     "stub": ["recording plug-in classes (third-party code)", "SimFS/SimRaw", "stepping client"],
 }
-PROBES_REQUIRED = ["plug-in-folder-imported", "other-cid-used-before-in-same-process", "veto-by-first-of-several-checks", "first-cell-rejected", "blank-only-fixed-cell", "run-stopped-early",
+PROBES_REQUIRED = ["reader-constructed-before-earlier-runs", "plug-in-folder-imported", "other-cid-used-before-in-same-process", "veto-by-first-of-several-checks", "first-cell-rejected", "blank-only-fixed-cell", "run-stopped-early",
                    "second-run-on-same-cid", "writer-run", "close-twice", "hook-rejection", "guard-rejection:chars",
                    "guard-rejection:length", "end-check-fails", "row-beyond-limit", "header-row", "wrong-item-count",
                    "builtin-isunique-between-recording-checks"]
@@ -96,7 +96,7 @@ def generate(seed, tier):
             runs.append({"kind": "read", "data": data, "api": api, "mode": "raise" if api == "validate" else mode,
                          "limit": rng.choice([None, None, 0, 1, 2, size, size + 1]),
                          "stop_after": rng.choice([None, None, None, 0, 1, 2]) if api != "validate" else None,
-                         "close_twice": rng.random() < 0.3})
+                         "close_twice": rng.random() < 0.3, "create": rng.choice(["late", "late", "early"])})
         else:
             runs.append({"kind": "write", "data": data, "close_twice": rng.random() < 0.3})
     plugin_folder = swarm.random() < 0.3
@@ -314,6 +314,14 @@ def execute(scenario):
         cid = lib.load_cid(cid_rows(spec))
         plugins.set_log(log)
         try:
+            # readers may be constructed long before their data set is read; constructing one calls nothing
+            early = {}
+            for run_index, run in enumerate(scenario["runs"]):
+                if run["kind"] == "read" and run.get("create") == "early" and run["api"] != "validate":
+                    early[run_index] = lib.ReadRun(cid, run["data"] + ".txt", run["api"], run["mode"], until=run.get("limit"))
+                    probes.append("reader-constructed-before-earlier-runs")
+            if log:
+                mismatch = (-1, {"kind": "construction"}, [list(event) for event in log], [])
             for run_index, run in enumerate(scenario["runs"]):
                 del log[:]
                 table = scenario["tables"][run["data"]]
@@ -325,7 +333,7 @@ def execute(scenario):
                     rows_as_read = [[cell.ljust(width) for cell, width in zip(row, widths)] for row in table] \
                         if fmt == "fixed" else table
                     limit = run.get("limit")
-                    reader = lib.ReadRun(cid, run["data"] + ".txt", run["api"], run["mode"], until=limit)
+                    reader = early.get(run_index) or lib.ReadRun(cid, run["data"] + ".txt", run["api"], run["mode"], until=limit)
                     steps = 0
                     stop_after = run.get("stop_after")
                     while (stop_after is None or steps < stop_after) and reader.step():
@@ -427,6 +435,8 @@ def execute(scenario):
         got = normal_recorded[position][0] if position < len(normal_recorded) else "nothing"
         wanted = normal_predicted[position][0] if position < len(normal_predicted) else "nothing"
         features = ["kind=" + run["kind"], "recorded=" + got, "predicted=" + wanted]
+        if run.get("create") == "early":
+            features.append("constructed-early")
         if run_index > 0:
             features.append("later-run")
         raise core.Violation("call-sequence-differs-from-protocol", features,
@@ -483,7 +493,7 @@ def candidates(scenario):
         if check[1] != "IsUnique" and check[2]:
             yield lib.with_value(scenario, ["cid", "checks", index, 2], "")
     for index, run in enumerate(scenario["runs"]):
-        simple = {"api": "Reader", "mode": "raise", "limit": None, "stop_after": None, "close_twice": False} \
+        simple = {"api": "Reader", "mode": "raise", "limit": None, "stop_after": None, "close_twice": False, "create": "late"} \
             if run["kind"] == "read" else {"close_twice": False}
         for key, value in simple.items():
             if run.get(key) != value:
